@@ -55,15 +55,14 @@ Print Assumptions C07_imported_fixtures_are_the_import_closure.
     (clean or scan-style, parsable or not), closes and queries (go-to-definition, resolution,
     per-file view, imported names, references) in ANY interleaving — whatever memo entries
     the earlier queries left behind, for nested modules too — resolution with any filter and
-    the import test answer exactly as with all memos cleared, and the per-file view denotes
-    for every name the definition the cold view denotes (both views have one entry per
-    name) *)
+    the import test answer exactly as with all memos cleared, and the per-file view IS the
+    cold view (the same list: a list sorted by name with one entry per name is determined by
+    what each name denotes) *)
 Theorem C07_every_answer_equals_the_cold_answer :
   forall dk roots s, reached dk roots s ->
     (forall flt F n, closest_with dk roots s flt F n = closest_with dk roots (cold s) flt F n) /\
     (forall n file, is_imported dk roots s n file = is_imported dk roots (cold s) n file) /\
-    (forall F n, lookup_av n (available dk roots s F) = lookup_av n (available_cold dk roots (cold s) F)) /\
-    (forall F, NoDup (map d_name (available_cold dk roots (cold s) F))).
+    (forall F, available dk roots s F = available_cold dk roots (cold s) F).
 Proof. exact warm_equals_cold_everywhere. Qed.
 Print Assumptions C07_every_answer_equals_the_cold_answer.
 
@@ -109,5 +108,4 @@ Check C07_every_answer_equals_the_cold_answer :
   forall dk roots s, reached dk roots s ->
     (forall flt F n, closest_with dk roots s flt F n = closest_with dk roots (cold s) flt F n) /\
     (forall n file, is_imported dk roots s n file = is_imported dk roots (cold s) n file) /\
-    (forall F n, lookup_av n (available dk roots s F) = lookup_av n (available_cold dk roots (cold s) F)) /\
-    (forall F, NoDup (map d_name (available_cold dk roots (cold s) F))).
+    (forall F, available dk roots s F = available_cold dk roots (cold s) F).
